@@ -166,6 +166,12 @@ impl<B: Body> PreparedRequest<B> {
         let version = Version::HTTP_11;
 
         if proxy.is_some() && url.scheme() == "http" {
+            // The absolute-form target never carries the URL's credentials or fragment.
+            let mut url = url.clone();
+            url.set_fragment(None);
+            let _ = url.set_username("");
+            let _ = url.set_password(None);
+
             debug!("{} {} {:?}", self.method.as_str(), url, version);
 
             write!(writer, "{} {} {:?}\r\n", self.method.as_str(), url, version)?;
